@@ -10,6 +10,7 @@ import (
 	"math/rand/v2"
 	"os"
 	"runtime"
+	"sort"
 	"sync"
 	"sync/atomic"
 	"time"
@@ -724,6 +725,24 @@ func run(c *core.Case) {
 	}
 }
 
+// fragmentHeaderOffsets parses the page/fragment structure of a segment and returns the file
+// offsets at which a fragment header starts (page padding excluded).
+func fragmentHeaderOffsets(src []byte) []int {
+	var out []int
+	for page := 0; page < len(src); page += pageSize {
+		o := page
+		end := min(page+pageSize, len(src))
+		for o+recHdr <= end {
+			if src[o] == 0 { // recPageTerm: the rest of the page is padding
+				break
+			}
+			out = append(out, o)
+			o += recHdr + int(binary.BigEndian.Uint16(src[o+1:]))
+		}
+	}
+	return out
+}
+
 func shadowTail(c *core.Case, r *rand.Rand, dir string, p *plan) {
 	first, last, err := wlog.Segments(dir)
 	if err != nil || last < 0 {
@@ -736,12 +755,15 @@ func shadowTail(c *core.Case, r *rand.Rand, dir string, p *plan) {
 	delivered := 0
 	grows := 0
 	justDelivered := false
+	headerStage, oneByte := 0, 0
+	atHeader := false
 	for seg := first; seg <= last && budget > 0; seg++ {
 		src, err := os.ReadFile(wlog.SegmentName(dir, seg))
 		core.Must(err, "read segment")
 		f, err := os.OpenFile(wlog.SegmentName(shadow, seg), os.O_CREATE|os.O_WRONLY|os.O_APPEND, 0o644)
 		core.Must(err, "create shadow segment")
 		off := 0
+		hdrs := fragmentHeaderOffsets(src)
 		for off < len(src) && budget > 0 {
 			n := 1 + r.IntN(12)
 			before := delivered
@@ -750,12 +772,26 @@ func shadowTail(c *core.Case, r *rand.Rand, dir string, p *plan) {
 				n = 1 + r.IntN(600)
 			case 1:
 				n = 1 + r.IntN(40000)
-			}
-			if justDelivered && r.IntN(4) != 0 {
-				n = 1 + r.IntN(6) // stop inside the next fragment header
-				if r.IntN(2) == 0 {
-					n = 1 + r.IntN(2) // ... before its length field is complete
+			case 2, 3, 4:
+				// up to the start of one of the next fragment headers: the header itself is then
+				// exposed byte by byte
+				if i := sort.Search(len(hdrs), func(i int) bool { return hdrs[i] > off }); i < len(hdrs) {
+					i += r.IntN(min(3, len(hdrs)-i))
+					n = hdrs[i] - off
+					atHeader = true
 				}
+			}
+			// after a delivered record: first exactly one byte of the next fragment header (type byte
+			// only, the length field still holds whatever the reader's buffer held before), then a
+			// few more bytes of it, then random increments again
+			switch {
+			case justDelivered || headerStage == 2:
+				n, headerStage = 1, 1
+				if off >= pageSize {
+					oneByte++
+				}
+			case headerStage == 1:
+				n, headerStage = 1+r.IntN(5), 0
 			}
 			if off+n > len(src) {
 				n = len(src) - off
@@ -775,6 +811,12 @@ func shadowTail(c *core.Case, r *rand.Rand, dir string, p *plan) {
 				return true
 			})
 			justDelivered = delivered > before
+			if atHeader {
+				atHeader = false
+				if !justDelivered {
+					headerStage = 2 // stopped in front of a continuation fragment's header
+				}
+			}
 			if kind != "" {
 				c.Violatef(kind+"-on-partial-write", "byte-wise tail with %d of %d bytes of segment %d visible: %s", off, len(src), seg, msg)
 				f.Close()
@@ -790,6 +832,7 @@ func shadowTail(c *core.Case, r *rand.Rand, dir string, p *plan) {
 			break
 		}
 	}
+	c.Count("bytewise_tail_one_byte_headers_after_first_page", int64(oneByte))
 	c.Count("bytewise_tail_grow_steps", int64(grows))
 	c.Count("bytewise_tail_records", int64(delivered))
 }
